@@ -8,6 +8,17 @@ use std::panic::{catch_unwind, AssertUnwindSafe};
 mod ops;
 
 fn main() {
+    // `verif-native build-run`: the build-script entry point, run in the current directory (replay of
+    // build-path histories); everything else is the JSON-lines RPC loop
+    if std::env::args().nth(1).as_deref() == Some("build-run") {
+        match tauri_typegen::BuildSystem::generate_at_build_time() {
+            Ok(()) => std::process::exit(0),
+            Err(e) => {
+                eprintln!("Error: {}", e);
+                std::process::exit(1);
+            }
+        }
+    }
     std::panic::set_hook(Box::new(|_| {}));
     let stdin = std::io::stdin();
     let out = std::io::stdout();
